@@ -40,18 +40,22 @@ def cells(tier, seed):
                     continue
                 for call_noise in (["absent"] if kind == "gaussian" else ["absent", "given", "given_other_n"]):
                     out.append({"kind": kind, "n": n, "lb": list(lb), "db": list(db), "call_noise": call_noise})
-    for rank, glob, task, inter, n, db, lb in itertools.product([0, 1, 2], [True, False], [True, False], [True, False], [1, 3],
-                                                                [(), (2,), (3, 2)], [(), (2,)]):
-        if not (glob or task):
-            continue
-        if rank > 0 and not task:
-            continue
-        try:
-            torch.broadcast_shapes(lb, db)
-        except RuntimeError:
-            continue
-        out.append({"kind": "multitask", "rank": rank, "glob": glob, "task": task, "inter": inter, "n": n, "db": list(db), "lb": list(lb),
-                    "call_noise": "absent"})
+    for t in ((2, 3) if tier == "thorough" else (2,)):
+        for rank, glob, task, inter, n, db, lb in itertools.product(range(t + 1), [True, False], [True, False], [True, False],
+                                                                    [1, 3] if t == 2 else [1, 2, 3, 4], [(), (2,), (3, 2)], [(), (2,)] if t == 2 else [(), (2,), (1,)]):
+            if not (glob or task):
+                continue
+            if rank > 0 and not task:
+                continue
+            try:
+                torch.broadcast_shapes(lb, db)
+            except RuntimeError:
+                continue
+            c = {"kind": "multitask", "rank": rank, "glob": glob, "task": task, "inter": inter, "n": n, "db": list(db), "lb": list(lb),
+                 "call_noise": "absent"}
+            if t != 2:
+                c["t"] = t
+            out.append(c)
     for call_noise in ("absent", "given"):
         out.append({"kind": "list", "n": 3, "lb": [], "db": [], "call_noise": call_noise})
     for k in ("gaussian", "fixed", "fixed_learn", "multitask"):
@@ -63,6 +67,7 @@ def run_cell(cell, seed):
     kind = cell["kind"]
     fails = Fails()
     feats = {k: cell.get(k) for k in ("kind", "n", "call_noise", "rank", "glob", "task", "inter")}
+    feats["t"] = cell.get("t", 2)
     feats.update(lb=len(cell["lb"]), db=len(cell["db"]), bt=f"{cell['lb']}/{cell['db']}")
     g = util.gen(seed, "c12|" + util.jdump(cell))
     if kind == "multitask":
@@ -229,7 +234,7 @@ def task_noise_matrix(lik, rank, glob, task, t, lb):
 def run_multitask(cell, g, fails, feats):
     rank, glob, task, inter, n = cell["rank"], cell["glob"], cell["task"], cell["inter"], cell["n"]
     db, lb = tuple(cell["db"]), tuple(cell["lb"])
-    t = 2
+    t = cell.get("t", 2)
     B = torch.broadcast_shapes(lb, db)
     lik = MultitaskGaussianLikelihood(num_tasks=t, rank=rank, has_global_noise=glob, has_task_noise=task, batch_shape=torch.Size(lb))
     with torch.no_grad():
